@@ -104,7 +104,18 @@ class Prop:
 # Lean side
 
 
+_HELD = [0]     # the run holds the lock across regenerate + build + audit, so that a concurrent run against ANOTHER tree
+                # (OFV_REPO) cannot swap the generated files in between
+
+
+class _Held:
+    def close(self):
+        pass
+
+
 def _lock():
+    if _HELD[0]:
+        return _Held()
     os.makedirs(os.path.join(LEAN_ROOT, ".lake"), exist_ok=True)
     f = open(os.path.join(LEAN_ROOT, ".lake", "ofverif.lock"), "w")
     fcntl.flock(f, fcntl.LOCK_EX)
@@ -120,17 +131,28 @@ def lake_build(targets: list, timeout: int = 1500) -> tuple[bool, str]:
         lock.close()
 
 
+TRANSLATION: dict = {}     # function -> "translated" | "fallback: reason" (translate.py), filled by regenerate_tables
+
+
 def regenerate_tables() -> tuple[bool, str]:
-    from . import extract
+    from . import extract, translate
     lock = _lock()
     try:
         try:
             changed, _ = extract.regenerate(REPO, LEAN_ROOT)
-            return True, "changed" if changed else "unchanged"
+            changed2, status = translate.regenerate(REPO, LEAN_ROOT)
+            TRANSLATION.clear()
+            TRANSLATION.update(status)
+            return True, "changed" if (changed or changed2) else "unchanged"
         except Exception as e:  # the source lost the shape the extractor expects
             return False, f"{type(e).__name__}: {e}"
     finally:
         lock.close()
+
+
+def tie_module(pid: str) -> Optional[str]:
+    """Props/<pid>Tie.lean: theorems tying the hand-written model to the decision code translated from the source"""
+    return f"OFCore.Props.{pid}Tie" if os.path.exists(os.path.join(LEAN_ROOT, "OFCore", "Props", f"{pid}Tie.lean")) else None
 
 
 def strip_comments(src: str) -> str:
@@ -167,11 +189,13 @@ def syntactic_audit(roots: list) -> list:
 
 
 def theorems_of(pid: str) -> list:
-    path = os.path.join(LEAN_ROOT, "OFCore", "Props", f"{pid}.lean")
-    if not os.path.exists(path):
-        return []
-    src = strip_comments(open(path).read())
-    return re.findall(r"^theorem\s+(" + pid + r"_[A-Za-z0-9_']+)", src, flags=re.M)
+    out = []
+    for name in (f"{pid}.lean", f"{pid}Tie.lean"):
+        path = os.path.join(LEAN_ROOT, "OFCore", "Props", name)
+        if os.path.exists(path):
+            src = strip_comments(open(path).read())
+            out += re.findall(r"^theorem\s+(" + pid + r"_[A-Za-z0-9_']+)", src, flags=re.M)
+    return out
 
 
 def axiom_audit(pid: str) -> tuple[dict, str]:
@@ -184,7 +208,7 @@ def axiom_audit(pid: str) -> tuple[dict, str]:
     os.makedirs(d, exist_ok=True)
     path = os.path.join(d, f"Audit_{pid}.lean")
     with open(path, "w") as f:
-        f.write(f"import OFCore.Props.{pid}\nopen OFCore\n")
+        f.write(f"import OFCore.Props.{pid}\n" + (f"import {tie_module(pid)}\n" if tie_module(pid) else "") + "open OFCore\n")
         for t in thms:
             f.write(f"#print axioms {t}\n")
     p = subprocess.run(["lake", "env", "lean", path], cwd=LEAN_ROOT, capture_output=True, text=True, timeout=900)
@@ -402,11 +426,15 @@ def run_check(modname: str, tier: str, seed: int, replay: Optional[str] = None) 
     log(f"tier={tier} seed={seed} repo={REPO}")
 
     # 1. tables regenerated from the source, 2. build, 3. audits
+    outer = _lock()
+    _HELD[0] = 1
     gen_ok, gen_msg = regenerate_tables()
     log(f"Generated.lean: {gen_msg}")
     drv_ok, drv_log = lake_build([prop.driver])
     if not drv_ok:
         log("driver build FAILED\n" + drv_log[-1500:])
+    if tie_module(pid) and tie_module(pid) not in prop.lean_targets:
+        prop.lean_targets = [*prop.lean_targets, tie_module(pid)]
     build_ok, build_log = lake_build(prop.lean_targets)
     if not build_ok:
         log("proof build FAILED\n" + build_log[-2500:])
@@ -423,6 +451,8 @@ def run_check(modname: str, tier: str, seed: int, replay: Optional[str] = None) 
         log("forbidden constructs: " + "; ".join(syn[:5]))
     if bad_ax and build_ok:
         log("axiom audit: " + json.dumps(bad_ax)[:600] + "\n" + ax_log[-600:])
+    _HELD[0] = 0
+    outer.close()
     leanchecker = None
     if tier == "thorough" and build_ok:
         mods = [t for t in prop.lean_targets if t.startswith("OFCore.")]
@@ -438,6 +468,14 @@ def run_check(modname: str, tier: str, seed: int, replay: Optional[str] = None) 
         fp = srcmap.compare(pid, REPO)
     except Exception as e:
         fp = {"status": "no-baseline", "changed": [], "error": f"{type(e).__name__}: {e}"}
+    if tie_module(pid):
+        fell = {k: v for k, v in TRANSLATION.items() if v != "translated"}
+        fp["translated_decision_code"] = dict(TRANSLATION)
+        if fell:
+            # the translator no longer understands a function: its tie theorems are vacuous on this run (they are
+            # stated against the model's own decision); the correspondence remains the tie -> explore further
+            fp["status"] = "changed"
+            fp["changed"] = [*fp["changed"], *[f"<not translatable> {k}: {v}" for k, v in fell.items()]]
     log(f"anchored source: {fp['status']}" + (" (" + ", ".join(fp["changed"][:8]) + (" ..." if len(fp["changed"]) > 8 else "") + ")" if fp["changed"] else ""))
 
     # 4. cases
